@@ -1313,6 +1313,42 @@ class _Span0(object):
         return self._a
 
 
+def rule_R21_iter_quant(blk, recv_iter, elem_ty, spec_expr, unit, name, rel):
+    """`RECV.iter().any(|PAT| BODY)` / `.all(..)`  ->  `vx_iter_any(&RECV, |vx_e: ELEM| -> (vx_r: bool) ensures vx_r == (SPEC) { let PAT = vx_e; BODY })`
+    (prelude functions vx_iter_any / vx_iter_all: loops verified against the closure's own contract; ELEM and SPEC come
+    from the contract file, the closure body is the repository's)"""
+    if not recv_iter.endswith('.iter()'):
+        raise Unsupported('%s: iter_quant receiver must end with .iter()' % name)
+    recv = recv_iter[:-len('.iter()')]
+    rx = re.compile(r'\s*'.join(re.escape(t) for t in re.findall(r'\w+|[^\w\s]', recv_iter)) + r'\s*\.\s*(any|all)\s*\(\s*\|')
+    mask = code_mask(blk)
+    mm = next((m for m in rx.finditer(blk) if mask[m.start()]), None)
+    if mm is None:
+        unit.lost_aids.append({'fn': name, 'aid': 'iterator quantifier over `%s` (not present in the block any more)' % recv_iter})
+        return blk
+    # closure parameter pattern up to the closing `|` (depth-aware for tuple patterns)
+    j = mm.end()
+    depth = 0
+    while j < len(blk):
+        c = blk[j]
+        if c in '([':
+            depth += 1
+        elif c in ')]':
+            depth -= 1
+        elif c == '|' and depth == 0:
+            break
+        j += 1
+    pat = blk[mm.end():j].strip()
+    # the call's opening parenthesis is the last `(` of the match; its closing one ends the closure body
+    op = blk.rindex('(', mm.start(), mm.end())
+    cl = match_brace(blk, mask, op)
+    body = blk[j + 1:cl].strip()
+    new = 'vx_iter_%s(&%s, |vx_e: %s| -> (vx_r: bool) ensures vx_r == (%s) { let %s = vx_e; %s })' % (mm.group(1), recv, elem_ty, spec_expr, pat, body)
+    pad = '\n' * blk[mm.start():cl + 1].count('\n')
+    unit.rule_log.append({'rule': 'R21', 'before': norm_ws(blk[mm.start():cl + 1])[:120], 'after': norm_ws(new)[:160], 'where': '%s block %s' % (rel, name)})
+    return blk[:mm.start()] + new + pad + blk[cl + 1:]
+
+
 def emit_block(unit, loc, dlines, tmpl_where):
     """R9: a statement range of a (possibly async) fn, located by a start and an end anchor, is wrapped
     verbatim into a synthetic fn whose name and parameter list come from the contract file:
@@ -1338,6 +1374,7 @@ def emit_block(unit, loc, dlines, tmpl_where):
     sig = None
     fall = ''
     substs = []
+    iter_quants = []
     rest = []
     for raw in dlines:
         st = raw.strip()
@@ -1347,6 +1384,11 @@ def emit_block(unit, loc, dlines, tmpl_where):
             sig = st[3:].strip()
         elif re.match(r'^ ?\S', raw) and st.split()[0] == 'fallthrough':
             fall = re.match(r'fallthrough\s+`(.*)`\s*$', st).group(1)
+        elif re.match(r'^ ?\S', raw) and st.split()[0] == 'iter_quant':
+            m3 = re.match(r'iter_quant\s+`(.*)`\s+elem\s+`(.*)`\s+spec\s+`(.*)`\s*$', st)
+            if not m3:
+                raise Unsupported('%s: bad iter_quant' % tmpl_where)
+            iter_quants.append((m3.group(1), m3.group(2), m3.group(3)))
         elif re.match(r'^ ?\S', raw) and st.split()[0] == 'subst':
             m2 = re.match(r'subst\s+`(.*)`\s*=>\s*`(.*)`\s*$', st)
             substs.append((m2.group(1), m2.group(2)))
@@ -1423,6 +1465,8 @@ def emit_block(unit, loc, dlines, tmpl_where):
         if end_exclusive:
             mb = _Span0(mb.start())
         blk = body[ma.start():mb.end()]
+    for recv_iter, elem_ty, spec_expr in iter_quants:
+        blk = rule_R21_iter_quant(blk, recv_iter, elem_ty, spec_expr, unit, name, rel)
     for a, b in substs:
         # whitespace-insensitive match of the text to rename; an awaited expression may be renamed to a
         # parameter that stands for its (arbitrary) result (R8)
